@@ -72,24 +72,8 @@ def run(rep: Report, tier: str) -> None:
     rep.floor("result fetch sites", nfetch, 3)
 
     # ---- R15.3 --------------------------------------------------------------------------------------------
-    oc = P.func("vtlengine.duckdb_transpiler.Transpiler.SQLTranspiler._build_over_clause")
-    # find `if node.order_by:` guard whose body appends a string starting with ORDER BY
-    guards = []
-    for n in walk_no_nested(oc.node):
-        if isinstance(n, ast.If) and any("ORDER BY" in (sqlx.skeleton_of(x) or ("", []))[0] for x in ast.walk(n) if isinstance(x, (ast.Constant, ast.JoinedStr))):
-            guards.append(n)
-    rep.instance("R15.3", "order-by-guard", nontrivial=True, sample={"guards": [src(g.test) for g in guards]})
-    if len(guards) != 1 or "order_by" not in src(guards[0].test):
-        rep.add(Finding("R15.3", "R15.3/order-by-guard", oc.module.rel, oc.node.lineno, oc.qualname,
-                        f"_build_over_clause must emit ORDER BY exactly under `if node.order_by` (found guards: {[src(g.test) for g in guards]})"))
-    else:
-        # no early return / continue skipping the guard when order_by is set: the guard is on every path to the return
-        from sa.cfg import CFG
-        g = CFG(oc.node)
-        gn = [x for x in g.nodes if x.kind == "test" and x.stmt is guards[0]]
-        if not gn or g.path_avoiding(g.entry, lambda x: x is g.exit, lambda x: x in gn, follow_exc=False) is not None:
-            rep.add(Finding("R15.3", "R15.3/order-by-guard-skipped", oc.module.rel, guards[0].lineno, oc.qualname,
-                            "a path through _build_over_clause returns without reaching the `if node.order_by` emission"))
+    from sa.checks import c06
+    c06.over_clause_rules(P, rep, "R15.3")
     rep.analysed = dict(stats, premise=prem)
     rep.assumptions = ["DuckDB evaluates window functions / aggregates with ORDER BY deterministically when the order is total",
                        "preserve_insertion_order=false: no operator output order may be relied upon (premise read from the source)"]
